@@ -126,11 +126,14 @@ fn gc_plan(prop: &'static str, tier: &str) -> Vec<HxCfg> {
     } else {
         vec![
             wall(drain(all_ops(a3(prop, "3 ids, all ops"))), 300),
-            wall(drain(all_ops(a3x(prop, "3 ids, 2 labels, 2 data, all ops"))), 1500),
-            wall(drain(a4(prop, "4 ids")), 1500),
-            wall(drain(depth(all_ops(a4(prop, "4 ids, all ops")), 9)), 900),
-            wall(drain(depth(a5(prop, "ids 1..4 in 5 slots"), 9)), 900),
-            wall(drain(depth(a256(prop, "ids 0,5,254,255 in 256 slots, Sodg<16>"), 7)), 900),
+            wall(drain(all_ops(a3x(prop, "3 ids, 2 labels, 2 data, all ops"))), 1200),
+            wall(drain(a4(prop, "4 ids")), 1200),
+            wall(drain(depth(all_ops(a4(prop, "4 ids, all ops")), 10)), 900),
+            wall(drain(depth(a5(prop, "ids 1..4 in 5 slots"), 11)), 600),
+            wall(drain(depth(HxCfg::new(prop, "5 ids in 5 slots", 2, 5, &[0, 1, 2, 3, 4], &[0], &[0]), 9)), 600),
+            wall(drain(depth(a256(prop, "ids 0,5,254,255 in 256 slots, Sodg<16>"), 9)), 600),
+            wall(drain(HxCfg::new(prop, "3 ids, heap-encoded data of two lengths", 2, 3, &[0, 1, 2], &[0], &[1, 6])), 300),
+            wall(drain(depth(HxCfg::new(prop, "3 ids, Sodg<1>, 2 labels", 1, 3, &[0, 1, 2], &[0, 1], &[0]), 12)), 600),
             wall(drain(seeded5(prop, "5 ids from seeds", 5)), 600),
         ]
     }
@@ -336,6 +339,10 @@ pub fn run_hx_prop(prop: &'static str, tier: &str) -> Outcome {
             }
         }
         results.push(r);
+        // give the memory of the finished exploration back before the next one starts
+        unsafe {
+            libc::malloc_trim(0);
+        }
     }
     // non-vacuity
     let mut counters: std::collections::BTreeMap<String, u64> = Default::default();
